@@ -92,10 +92,31 @@ func c16RunCKKS(ctx *core.RunCtx) {
 	if err != nil {
 		ctx.Harness("ckks encrypt: %v", err)
 	}
-	// minimum level for share conversion
+	// minimum level for share conversion; the security parameter is drawn so
+	// that logBound + log2(n) falls within a few bits of log2(Q_l) for a drawn
+	// level l (the boundary where the minimum level flips), or freely
 	lambda := 10 + ch.Draw("lambda", 40)
+	if ch.Chance("lambda-at-boundary", 2, 3) {
+		l := ch.Draw("boundary-level", params.MaxLevelQ()+1)
+		logQ := float64(params.RingQ().ModulusAtLevel[l].BitLen())
+		sf, _ := ct.Scale.Value.Float64()
+		lambda = int(logQ) - int(math.Ceil(math.Log2(sf))) - int(math.Ceil(math.Log2(float64(d.n)))) - 2 + ch.Draw("boundary-delta", 4)
+		if lambda < 1 {
+			lambda = 1
+		}
+		ctx.Count("probe.security-parameter-at-level-boundary", 1)
+	}
 	var ok bool
 	sc.minLevel, sc.logBound, ok = mpckks.GetMinimumLevelForRefresh(lambda, ct.Scale, d.n, cp.Q())
+	if ok && sc.minLevel <= params.MaxLevelQ() {
+		// contract of the minimum level: the sum of n masks below 2^logBound fits below Q at that level
+		need := new(big.Int).Lsh(big.NewInt(int64(d.n)), sc.logBound)
+		ctx.Count("oracle.minimum-level-contract", 1)
+		if need.Cmp(params.RingQ().ModulusAtLevel[sc.minLevel]) > 0 {
+			ctx.Fail("contract", "ckks.GetMinimumLevelForRefresh|level-too-low", "GetMinimumLevelForRefresh(lambda=%d, scale=2^%.1f, n=%d) returned level %d with logBound %d, but n*2^logBound exceeds Q at that level (%d bits)", lambda, math.Log2(func() float64 { f, _ := ct.Scale.Value.Float64(); return f }()), d.n, sc.minLevel, sc.logBound, params.RingQ().ModulusAtLevel[sc.minLevel].BitLen())
+			return
+		}
+	}
 	level := params.MaxLevelQ()
 	if ok && sc.minLevel <= params.MaxLevelQ() {
 		level = sc.minLevel + ch.Draw("input-level-above-min", params.MaxLevelQ()-sc.minLevel+1)
@@ -224,6 +245,38 @@ func (sc *c16CKKS) runE2S(d *c16Deploy, ct *rlwe.Ciphertext) bool {
 	if pk {
 		ctx.Fail("panic", "ckks.EncToShare.GetShare", "GetShare panicked in %s: %s", site, msg)
 		return false
+	}
+	// a party that holds no mask (secretShare == nil) obtains x - sum(M_i); the value it is
+	// handed must stay what it is when the protocol object is used again
+	{
+		pubOnly := mpckks.NewAdditiveShare(cp, ct.LogSlots())
+		pk, site, msg := core.Protect(func() { e2s[0].GetShare(nil, *agg.(*multiparty.KeySwitchShare), ct, &pubOnly) })
+		if pk {
+			ctx.Fail("panic", "ckks.EncToShare.GetShare(nil)", "GetShare without own share panicked in %s: %s", site, msg)
+			return false
+		}
+		snap := make([]*big.Int, dsl)
+		for k := range snap {
+			snap[k] = new(big.Int).Set(pubOnly.Value[k])
+		}
+		// second use of the same protocol object with another aggregate
+		other := mpckks.NewAdditiveShare(cp, ct.LogSlots())
+		e2s[0].GetShare(nil, *pub[0].(*multiparty.KeySwitchShare), ct, &other)
+		ctx.Count("oracle.returned-share-not-aliased", 1)
+		for k := range snap {
+			if snap[k].Cmp(pubOnly.Value[k]) != 0 {
+				ctx.Fail("aliasing", "ckks.EncToShare.GetShare|result-aliases-scratch", "the share returned by GetShare(nil, ...) changed when the protocol object was used again (coefficient %d: %s -> %s)", k, snap[k].String(), pubOnly.Value[k].String())
+				return false
+			}
+		}
+		// consistency of the two entry points: pubOnly + M_0 == GetShare(&M_0, ...)
+		for k := 0; k < dsl; k++ {
+			t := new(big.Int).Add(pubOnly.Value[k], secret[0].Value[k])
+			if t.Cmp(fin.Value[k]) != 0 {
+				ctx.Fail("message", "ckks.EncToShare.GetShare|entry-points-disagree", "GetShare(nil) + own mask differs from GetShare(own mask) at coefficient %d", k)
+				return false
+			}
+		}
 	}
 	secret[0] = fin
 	// sum of shares == centred raw plaintext at the gap positions, up to n*shareB
@@ -370,8 +423,12 @@ func (sc *c16CKKS) runRefresh(d *c16Deploy, ct *rlwe.Ciphertext, m []*bignum.Com
 			out := make([]*bignum.Complex, len(c))
 			for i := range c {
 				src := c[perm[i]]
-				k := new(big.Float).SetPrec(sc.prec).SetFloat64(mulRe[i])
-				out[i] = &bignum.Complex{new(big.Float).SetPrec(sc.prec).Mul(src[0], k), new(big.Float).SetPrec(sc.prec).Mul(src[1], k)}
+				pr := src[0].Prec()
+				if pr < 128 {
+					pr = 128
+				}
+				k := new(big.Float).SetPrec(pr).SetFloat64(mulRe[i])
+				out[i] = &bignum.Complex{new(big.Float).SetPrec(pr).Mul(src[0], k), new(big.Float).SetPrec(pr).Mul(src[1], k)}
 			}
 			for i := range c {
 				c[i][0].Set(out[i][0])
@@ -381,7 +438,13 @@ func (sc *c16CKKS) runRefresh(d *c16Deploy, ct *rlwe.Ciphertext, m []*bignum.Com
 		tf = &mpckks.MaskedLinearTransformationFunc{Decode: true, Encode: true, Func: f}
 		f(want)
 	}
-	mt0, err := mpckks.NewMaskedLinearTransformationProtocol(cp, cp, sc.prec, d.noise)
+	// the transform works on masks of logBound bits: its arithmetic precision must exceed that
+	// (the library's own tests pass the mask size as precision)
+	tprec := uint(128)
+	if p := sc.logBound + 96; p > tprec {
+		tprec = p
+	}
+	mt0, err := mpckks.NewMaskedLinearTransformationProtocol(cp, cp, tprec, d.noise)
 	if err != nil {
 		ctx.Fail("protocol", name+"|constructor", "NewMaskedLinearTransformationProtocol failed: %v", err)
 		return false
@@ -398,7 +461,7 @@ func (sc *c16CKKS) runRefresh(d *c16Deploy, ct *rlwe.Ciphertext, m []*bignum.Com
 		if i > 0 && ch.Bool("proto-by-shallowcopy") {
 			p = mt0.ShallowCopy()
 		} else if i > 0 {
-			p, _ = mpckks.NewMaskedLinearTransformationProtocol(cp, cp, sc.prec, d.noise)
+			p, _ = mpckks.NewMaskedLinearTransformationProtocol(cp, cp, tprec, d.noise)
 		}
 		s := p.AllocateShare(e2sLevel, outLevel)
 		var gerr error
